@@ -91,6 +91,8 @@ def c_row(ident, tag):
         type_name = "Bogus"
     elif tag == "emptytype":
         type_name = ""
+    elif tag == "desconly":
+        type_name, rule = "", ""
     elif tag == "u:undeclared":
         type_name, rule = "IsUnique", "nosuchfield"
     elif tag == "u:empty":
@@ -156,6 +158,10 @@ def concrete_rows(vec, variant):
         if cells and variant == 2 and kind in ("D", "F", "C"):
             width = {"D": 3, "F": 7, "C": 4}[kind]
             cells = cells + [""] * (width - len(cells)) + ["", "trailing note", "ignored"]  # cells beyond the parsed columns
+        if cells and variant == 3 and kind in ("D", "F", "C"):
+            # cells beyond the parsed columns (7 per row) that would make sense if they were read
+            cells = cells + [""] * (7 - len(cells)) + {"D": ["Format", fmt], "F": ["Integer", "0...9"],
+                                                       "C": ["IsUnique", "customer_id"]}[kind]
         result.append(cells)
     return fmt, result
 
@@ -189,11 +195,11 @@ def load(rows, as_text):
 
 def _job(vec):
     problems = []
-    for variant in range(3):
+    for variant in range(4):
         fmt, rows = concrete_rows(vec, variant)
         for as_text in ((False, True) if variant == 0 and not any(r == [] for r in rows) else (False,)):
             observed = load(rows, as_text)
-            what = "%s CID with %s (%s%s)" % (fmt, vec["label"], ["plain", "lower-case markers with blanks", "trailing cells"][variant],
+            what = "%s CID with %s (%s%s)" % (fmt, vec["label"], ["plain", "lower-case markers with blanks", "trailing cells", "plausible cells beyond column 7"][variant],
                                                ", from text" if as_text else "")
             if observed["status"] == "crash":
                 problems.append("%s: neither accepted nor refused with an interface error: %s; rows %r" % (what, observed["text"], rows))
